@@ -215,7 +215,136 @@ def m4_frozen_block_decoding(S):
         S.witness(ctx, ob, f"{short}_reach_hit", pre, T.or_(*[p.cond() for p in hits]) if hits else False)
 
 
-OBLIGATIONS = [m1_freeze_threshold, m3_reads_switch_to_freezer, m4_frozen_block_decoding]
+def m2_freeze_loop(S):
+    """`Freezer::freeze(threshold, get_block_by_number)`: from the frozen height F up to the threshold, in ascending order and without gaps, each height is appended with the bytes of
+    the block fetched FOR THAT HEIGHT; the parent hash of every block is checked against the freezer's tip (the previously appended block, or the tip recorded before the call) and a
+    mismatch aborts with an error before anything more is appended; the loop stops at the first missing block and when the stop flag is raised; the result maps the hash of exactly the
+    appended blocks to (height, number of transactions); the files are synced before an early or normal return (F = 5, threshold = 5..8)"""
+    from mir2smt.exec import ListV
+    from mir2smt import symmap as SM
+    from mir2smt.srcinfo import field_index
+    ob = "C10.m2"
+    f = [x for x in S.prog.funcs if x.kind == "fn" and x.short == "freeze" and "freezer/src/freezer.rs" in x.name and len(x.params) == 3]
+    if len(f) != 1:
+        raise Inconclusive(f"Freezer::freeze: {len(f)} candidates")
+    INN = field_index("freezer/src/freezer.rs", "Inner")
+    F0 = 5
+    for k in (0, 1, 2, 3):
+        ctx = S.ctx(unwind=k + 4)
+        ctx.uninterpreted_unknown_calls = True
+        ctx.max_paths = 6000
+        had_tip = ctx.bool("freezer_had_a_tip")
+        for i_ in range(k):
+            for j_ in range(i_):          # different blocks have different header hashes
+                ctx.add_side(T.ne(ctx.int(f"id!hash(header(blk{F0 + i_}))", "u64").t, ctx.int(f"id!hash(header(blk{F0 + j_}))", "u64").t))
+        inner = ctx.ref_to(AggV(tuple({"files": OpaqueV("files", "FreezerFiles"), "tip": mk_option(had_tip.t, OpaqueV("old_tip_header", "HeaderView"), "Option<HeaderView>")}[n] for n, _ in sorted(INN.items(), key=lambda kv: kv[1])), "Inner"))
+
+        def nmv(ex, v):
+            v = deref(ex, v)
+            if isinstance(v, IntV):
+                return str(v.t)
+            return getattr(v, "name", None) or type(v).__name__
+        call = lambda tag: (lambda ex, c, a, d: OpaqueV(tag + "(" + ",".join(nmv(ex, x) for x in a) + ")", d))
+
+        def ev(tag, ok_name=None):
+            def h(ex, c, a, d):
+                ex.log.append(("c10", tag, [nmv(ex, x) for x in a[1:]], list(ex.pc)))
+                okv = ex.ctx.bool(ok_name + "_" + "_".join(nmv(ex, x) for x in a[1:2])).t if ok_name else True
+                return mk_result(okv, UNIT, OpaqueV("ioerr", "io::Error"), d)
+            return h
+
+        def fetch(ex, c, a, d):
+            tup = deref(ex, a[1]) if isinstance(a[1], RefV) else a[1]
+            n = tup.fields[0].t if isinstance(tup, AggV) else tup.t
+            ex.log.append(("c10", "fetch", [str(n)], list(ex.pc)))
+            return mk_option(ex.ctx.bool(f"block_{n}_is_stored").t, OpaqueV(f"blk{n}", "BlockView"), d)
+
+        def result_insert(ex, c, a, d):
+            from mir2smt.exec import ENV_PASS
+            v = deref(ex, a[2]) if isinstance(a[2], RefV) else a[2]
+            ex.log.append(("c10", "result", [v.fields[0].t, v.fields[1].t], list(ex.pc)))
+            return ENV_PASS
+
+        def ne(ex, c, a, d):
+            x, y = nmv(ex, a[0]), nmv(ex, a[1])
+            ex.log.append(("c10", "parent_check", [x, y], list(ex.pc)))
+            return ex.ctx.bool("mismatch_" + re.sub(r"[^A-Za-z0-9]", "_", x + "_vs_" + y))
+        ctx.env = list(E.LOGGING_OFF) + [
+            (E.rx(r"Freezer::number$"), lambda ex, c, a, d: IntV(F0, "u64")),
+            (E.rx(r"<Arc<.*Mutex<.*Inner>> as Deref>::deref$"), lambda ex, c, a, d: ex.ctx.ref_to(OpaqueV("mutex", "Mutex"))),
+            (E.rx(r"Mutex::<.*Inner>::lock$"), lambda ex, c, a, d: OpaqueV("guard", d)),
+            (E.rx(r"MutexGuard<'_, .*Inner> as Deref(Mut)?>::deref(_mut)?$"), lambda ex, c, a, d: inner),
+            (E.rx(r"<Arc<AtomicBool> as Deref>::deref$"), lambda ex, c, a, d: ex.ctx.ref_to(OpaqueV("stop_flag", "AtomicBool"))),
+            (E.rx(r"AtomicBool::load$"), lambda ex, c, a, d: ex.ctx.bool("stopped_before_" + str(len([1 for e in ex.log if e[0] == "c10" and e[1] == "fetch"]) + F0))),
+            (E.rx(r"<F as Fn<\(u64,\)>>::call$"), fetch),
+            (E.rx(r"FreezerFiles::append$"), ev("append", "append_ok")),
+            (E.rx(r"FreezerFiles::sync_all$"), ev("sync")),
+            (E.rx(r"BlockView::header$"), call("header")),
+            (E.rx(r"HeaderView::hash$"), call("hash")),
+            (E.rx(r"HeaderView::parent_hash$"), call("parent_hash")),
+            (E.rx(r"BlockView::data$"), call("data")),
+            (E.rx(r"BlockView::transactions$"), call("txs")),
+            (E.rx(r"Vec::<.*TransactionView>::len$"), lambda ex, c, a, d: ex.ctx.int("len_" + re.sub(r"[^A-Za-z0-9]", "_", nmv(ex, a[0])), "usize")),
+            (E.rx(r"as (ckb_types::prelude::)?Entity>::as_slice$"), call("bytes")),
+            (E.rx(r"Byte32 as PartialEq>::ne$"), ne),
+            (E.rx(r"^(ckb_error::)?internal_error::<"), lambda ex, c, a, d: OpaqueV("internal_error", d)),
+            (E.rx(r"^format$|must_use::<"), E.opaque_call()),
+            (E.rx(r"BTreeMap::<Byte32, \(u64, u32\)>::insert$"), result_insert),
+        ] + SM.handlers(r"Byte32") + SM.EXTRAS + list(E.LIST_ADAPTORS)
+        ps = S.run(ctx, f[0], [ctx.ref_to(OpaqueV("freezer", "Freezer")), IntV(F0 + k, "u64"), OpaqueV("get_block_by_number", "F")])
+        tag = f"{k}_heights"
+        pre = [T.le(ctx.int(f"len_txs_blk{n}_", "usize").t, (1 << 32) - 1) for n in range(F0, F0 + k)]
+        S.prove(ctx, ob, f"{tag}_no_panic", pre, T.not_(cond_of(panics(ps))))
+        b = lambda name: ctx.bool(name).t
+        goals = []
+        for p in returns(ps):
+            evs = [(e[1], e[2]) for e in p.log if e[0] == "c10"]
+            apps = [a_ for t, a_ in evs if t == "append"]
+            ok = True
+            # appended heights: F0, F0+1, ... without gaps, each with the bytes of the block fetched for that height
+            ok = ok and apps == [[str(F0 + i), f"bytes(data(blk{F0 + i}))"] for i in range(len(apps))]
+            # fetches: ascending, one per height, no height after the first that was not appended
+            fet = [a_[0] for t, a_ in evs if t == "fetch"]
+            ok = ok and fet == [str(F0 + i) for i in range(len(fet))] and len(fet) in (len(apps), len(apps) + 1) and len(fet) <= k
+            # parent checks: block n against the previous tip
+            chk = [a_ for t, a_ in evs if t == "parent_check"]
+            want_chk = []
+            for i in range(len(fet)):
+                n = F0 + i
+                prev = "hash(old_tip_header)" if i == 0 else f"hash(header(blk{n - 1}))"
+                want_chk.append([prev, f"parent_hash(header(blk{n}))"])
+            # the first check only happens when the freezer had a tip; it is decided per path below
+            # (a check is made for every fetched block that exists: the appended ones and possibly one more whose check or append failed)
+            if not any(chk in (want_chk[:m_], want_chk[1:m_]) for m_ in (len(apps), len(apps) + 1)):
+                ok = False
+            # sync before every Ok return
+            v = p.value
+            is_ok = isinstance(v, EnumV) and v.disc == 0
+            if is_ok:
+                ok = ok and evs and evs[-1][0] == "sync"
+                m_ = v.payload(0)[0]
+                keys = sorted(str(k_) for k_, _, _ in m_.items) if isinstance(m_, SM.MapV) else None
+                want_keys = sorted(str(ctx.int(f"id!hash(header(blk{F0 + i}))", "u64").t) for i in range(len(apps)))
+                ok = ok and keys == want_keys
+                recs = [a_ for t, a_ in evs if t == "result"]
+                ok = ok and len(recs) == len(apps)
+                for j, (numt, lent) in enumerate(recs):
+                    goals.append(T.implies(p.cond(), T.and_(T.eq(numt, F0 + j), T.eq(lent, ctx.int(f"len_txs_blk{F0 + j}_", "usize").t))))
+            goals.append(T.implies(p.cond(), bool(ok)))
+            # semantic conditions: an append of height n happened iff every earlier height was stored, matched its parent and was appended, and no stop was raised before n
+            for i in range(k):
+                n = F0 + i
+                appended = len(apps) > i
+                cond = T.and_(*[T.and_(T.not_(b(f"stopped_before_{F0 + j}")), b(f"block_{F0 + j}_is_stored"),
+                                       T.not_(b("mismatch_hash_header_blk%d___vs_parent_hash_header_blk%d__" % (F0 + j - 1, F0 + j))) if j > 0 else T.or_(T.not_(had_tip.t), T.not_(b("mismatch_hash_old_tip_header__vs_parent_hash_header_blk%d__" % F0))))
+                                for j in range(i + 1)], *[b(f"append_ok_{F0 + j}") for j in range(i)])
+                goals.append(T.implies(p.cond(), T.iff(bool(appended), cond)))
+        S.prove(ctx, ob, f"{tag}_contiguous_ascending_appends_of_the_block_of_each_height_parent_checked_result_lists_exactly_them", pre, T.and_(*goals) if goals else False)
+        if k:
+            S.witness(ctx, ob, f"{tag}_reach_all_appended", pre, T.or_(*[p.cond() for p in returns(ps) if len([1 for e in p.log if e[0] == "c10" and e[1] == "append"]) == k]))
+
+
+OBLIGATIONS = [m1_freeze_threshold, m2_freeze_loop, m3_reads_switch_to_freezer, m4_frozen_block_decoding]
 
 ENGINE = "M"
 LEVEL = "other"
